@@ -64,6 +64,18 @@ func PipelineFromFile(file string, opts ...PipelineOption) (*Pipeline, error) {
 		return nil, err
 	}
 
+	// a null entry in a list of inputs or languages decodes to a nil pointer
+	for i, input := range pipeline.Inputs {
+		if input == nil {
+			return nil, fmt.Errorf("inputs[%d]: empty input", i)
+		}
+	}
+	for i, language := range pipeline.Output.Languages {
+		if language == nil {
+			return nil, fmt.Errorf("output.languages[%d]: empty language configuration", i)
+		}
+	}
+
 	for _, opt := range opts {
 		opt(pipeline)
 	}
